@@ -624,7 +624,16 @@ def check_large(steps, info):
         nfrag = 1 if bits <= 7264 else bits // 7264 + 1
         r = [e for e in st.events if e.startswith("ret ")]
         if r:
-            first, last = (int(x) for x in r[0].split()[1:3])
+            t = r[0].split()
+            first, last = (int(x) for x in t[1:3])
+            if len(t) >= 6:
+                cnt, sm, shape = int(t[3]), int(t[4]), int(t[5])
+                if cnt != nfrag:
+                    V.append(Violation("C19", "count", "%d bits are split into %d fragments, expected %d" % (bits, cnt, nfrag), st))
+                if sm != bits:
+                    V.append(Violation("C19", "length", "the fragments of a %d-bit payload carry %d bits in total: something beyond the payload is transmitted" % (bits, sm), st))
+                if nfrag > 1 and shape != 15:
+                    V.append(Violation("C19", "flags", "first/last fragment flags wrong (shape %d)" % shape, st))
             if first < 0 or last < 0:
                 V.append(Violation("C19", "send-failed", "large bunch of %d bits refused" % bits, st))
                 continue
